@@ -6,6 +6,7 @@ the divisions, definition of content), not from the Coq model.
 """
 import itertools, math, os
 from fractions import Fraction
+import lib
 from lib import line, Id, Case
 
 RULE = ('all operations of polynomial.rs on: every pair of canonical polynomials of degree <= 2 with coefficients in {-2..2} '
@@ -259,6 +260,8 @@ def division_pairs(rng, n, maxdeg, bits):
         out.append((p, [], 'zero-divisor')); out.append(([], p, 'zero-dividend'))
     return out
 
+PROFILES = ('debug', 'release')
+
 def cases(rng, tier):
     th = tier == 'thorough'
     out = []
@@ -324,4 +327,6 @@ def cases(rng, tier):
         q_binary(out, a, [Fraction(3, 7)], 'q-constant'); q_binary(out, a, [], 'q-zero'); q_binary(out, [], b, 'q-zero')
     if os.environ.get('C09_ORACLE_ALL'):      # self-test of the oracles: run them on every case, not only on disagreements
         for c in out: c.always_oracle = True
+    # a slice of the cases again on the release build of the implementation (wrapping arithmetic, debug assertions off)
+    out += lib.release_slice(out, rng, 0.03, mode_ops=())
     return out
